@@ -19,7 +19,8 @@ EXPLANATION = (
     "max(self.n_qubits, ...) (idle qubits kept); (D3) the generators do not write through their circuit argument, "
     "iterate the de-duplicated qubit collection, apply each constructed gate to the loop's own qubit, accumulate by "
     "right-concatenation, and add_ancilla_register indexes from the un-reassigned parameter's width plus the loop "
-    "counter over range(n_ancilla_qubits)."
+    "counter over range(n_ancilla_qubits); (D5) inverse() and controlled() keep no state: no attribute stored on the "
+    "receiver or an argument, no module-level table, no mutable default."
 )
 RULE_TEXT = "instances = comprehension/loop elements, index expressions, width expressions and (function, parameter) purity pairs of the five anchored functions; distinct by (rule, construct)"
 ASSUMPTIONS = [
@@ -88,6 +89,10 @@ def check_controlled(ctx):
         ctx.undecided(R2, fi.key + ":append", "expected one append per operation", where)
         return
     new_op = apps[0].args[0]
+    if isinstance(new_op, ast.Call) and len(new_op.args) > 1 and not new_op.keywords:
+        # gate(a, *b, ...) is gate(*(a, *b, ...))
+        tup = ast.copy_location(ast.Tuple(elts=list(new_op.args), ctx=ast.Load()), new_op)
+        new_op = ast.copy_location(ast.Call(func=new_op.func, args=[ast.Starred(value=tup, ctx=ast.Load())], keywords=[]), new_op)
     if not (isinstance(new_op, ast.Call) and len(new_op.args) == 1 and isinstance(new_op.args[0], ast.Starred)):
         ctx.undecided(R2, fi.key + ":append", f"appended operation {short(new_op)} is not gate(*indices)", where)
         return
@@ -108,6 +113,13 @@ def check_controlled(ctx):
     ctx.check(ok_gate, R2, fi.key + ":gate", "each gate becomes op.gate.controlled(1) of the current operation", f"the gate applied is {short(g) if g is not None else short(gate_e) + ' (not a single per-iteration definition)'}: not `op.gate.controlled(1)` computed from the current operation (a shared/cached wrapper can belong to another gate)", where)
     idx = local_def(idx_e)
     ok_first = isinstance(idx, (ast.Tuple, ast.List)) and len(idx.elts) == 2 and norm(idx.elts[0]) == k and isinstance(idx.elts[1], ast.Starred)
+    if isinstance(idx, (ast.Tuple, ast.List)) and len(idx.elts) > 2 and norm(idx.elts[0]) == k and all(isinstance(e, ast.Starred) for e in idx.elts[1:]):
+        # several groups concatenated: each group filtered out of op.qubit_indices => the relative order of the original
+        # indices changes whenever the groups interleave (CNOT(2, 0) with control 1: (2, 0) -> (3, 0), not (0, 3))
+        groups = [local_def(e.value) for e in idx.elts[1:]]
+        if all(isinstance(g_, (ast.GeneratorExp, ast.ListComp)) and len(g_.generators) == 1 and norm(g_.generators[0].iter) == f"{opv}.qubit_indices" and g_.generators[0].ifs for g_ in groups):
+            ctx.violation(R2, fi.key + ":shift", f"the original indices are split into {len(groups)} filtered groups ({', '.join(short(g_) for g_ in groups)}) that are concatenated: an index below the control that follows one above it moves in front of it, so the controlled gate acts on permuted qubits", where)
+            return
     ctx.check(ok_first, R2, fi.key + ":control-first", "(control_index, *shifted indices): control first", f"index tuple is {short(idx) if idx is not None else short(idx_e)}: the control qubit must come first, followed by the shifted original indices", where)
     if ok_first:
         sh = local_def(idx.elts[1].value)
@@ -270,6 +282,12 @@ def run(ctx):
     check_inverse(ctx)
     check_controlled(ctx)
     check_generators(ctx)
+    # inverse() and controlled() are functions of the circuit's current operations: a circuit is mutable (+=) and copyable, so
+    # a result remembered on the receiver, on an argument or in module state is handed out for a circuit it no longer inverts
+    from ..state import check_hidden_state
+
+    check_hidden_state(ctx, "C08-D5 constructions-stateless", [ctx.repo.func(f"{CIR}:Circuit.inverse"), ctx.repo.func(f"{CIR}:Circuit.controlled")], effects_for(ctx), argument_caches=True, receiver_caches=True)
+    ctx.floor("C08-D5", 2)
     ctx.floor("C08-D1", 4)
     ctx.floor("C08-D2", 5)
     ctx.floor("C08-D3", 14)
